@@ -38,6 +38,14 @@ func runC16(w *World) *Result {
 	r.Rule("R-C16-helpers", "helper routines: invocation implies flag set; (Batch) flag set implies an invocation is emitted", 10)
 	r.Rule("R-C16-nop", "the no-op emits one command line in both back ends", 2)
 	r.Rule("R-C16-jumps", "Batch loop/branch jumps use the labels their opener pushed (never a label recomputed from a moving counter)", 6)
+	r.Rule("R-C16-driver", "the driver calls the bracket methods of if / for / func / program in matched order on every success path (an opener or header skipped leaves a closer without its opening line)", 5)
+	ProtoRule(w, r, "R-C16-driver", func(n string) bool {
+		switch n {
+		case "If", "For", "FunctionDefinition", "Program", "Block":
+			return true
+		}
+		return false
+	})
 	for _, role := range []string{"bash", "batch"} {
 		b, err := BuildBackend(w, role)
 		if err != nil {
